@@ -635,10 +635,14 @@ func genSimConfig(r *rng) simrt.Config {
 		c.Sched, c.SwitchProb = simrt.SchedRandom, 1.0
 	case 6, 7:
 		c.Sched = simrt.SchedPCT
-	default:
-		// store-/synchronisation-biased: preempt only at read-modify-write splits and
-		// at sync / atomic operations (and at the yield following one)
+	case 8, 9:
+		// store-biased: preempt only at read-modify-write splits and at sync / atomic
+		// operations (and at the yield following one)
 		c.Sched = simrt.SchedStore
+	default:
+		// synchronisation-biased: only at sync / sync/atomic operations and at stores to
+		// package-level or captured variables
+		c.Sched = simrt.SchedSync
 	}
 	// hash-order modes that are a fixed function of the map (sorted / reverse /
 	// rotate): the same in the solo and the concurrent runs, so a result that
